@@ -973,7 +973,7 @@ func escapeFunc(v any) any {
 	if s, ok := v.(string); ok {
 		return html.EscapeString(s)
 	}
-	return fmt.Sprint(v)
+	return helpers.Sprint(v)
 }
 
 func intFunc(v any) any {
@@ -993,7 +993,8 @@ func intFunc(v any) any {
 }
 
 func stringFunc(v any) any {
-	return fmt.Sprint(v)
+	// (as {{ }} prints it: a pointer to a scalar is what it points to, not an address)
+	return helpers.Sprint(v)
 }
 
 func jsonFunc(v any) (string, error) {
